@@ -17,6 +17,9 @@
  */
 
 #include "plugin.h"
+#include "plugin_manager.h"
+#include "exception_runtime.h"
+#include "value.h"
 
 #include <cstring>
 #include <cstddef>
@@ -87,6 +90,43 @@ make_type(PLUGIN_TYPE type_def, Type::TypeMinor type_id)
   if (decl.size() == 1)
     return Type(decl[0].major(), decl[0].minor(), type_def.ndim);
   return decl.make_type(type_def.ndim);
+}
+
+namespace
+{
+class ObjectArgExpression : public Expression
+{
+  Expression * _exp;
+  Type::TypeMinor _type_id;
+public:
+  ObjectArgExpression(Expression * e, Type::TypeMinor type_id) : _exp(e), _type_id(type_id) { }
+  ~ObjectArgExpression() override { delete _exp; }
+  std::string unparse(Context& ctx) const override { return _exp->unparse(ctx); }
+  bool enclosed() const override { return _exp->enclosed(); }
+  const Type& type(Context& ctx) const override { return _exp->type(ctx); }
+  Value& value(Context& ctx) const override
+  {
+    Value& val = _exp->value(ctx);
+    if (!val.isNull() && (val.type().major() != Type::COMPLEX || val.type().minor() != _type_id))
+      throw RuntimeError(EXC_RT_BAD_COMPLEX_S, PluginManager::instance().plugged(_type_id).interface.name);
+    return val;
+  }
+  bool isConst() const override { return _exp->isConst(); }
+  bool isVarName() const override { return _exp->isVarName(); }
+  unsigned symbolId() const override { return _exp->symbolId(); }
+  const TupleDecl::Decl& tuple_decl(Context& ctx) const override { return _exp->tuple_decl(ctx); }
+  std::string toString(Context& ctx) const override { return _exp->toString(ctx); }
+  std::string typeName(Context& ctx) const override { return _exp->typeName(ctx); }
+};
+}
+
+Expression *
+guard_object(Expression * arg, PLUGIN_TYPE type_def, Type::TypeMinor type_id)
+{
+  if (type_def.ndim == 0 && make_decl(type_def.decl, type_id).size() == 1 &&
+          __match_type_code__[(unsigned char) type_def.decl[0]] == Type::COMPLEX)
+    return new ObjectArgExpression(arg, type_id);
+  return arg;
 }
 
 } /* namespace import */
